@@ -201,6 +201,34 @@ theorem torus_loopback_placement (t : Torus) (hwf : t.WF) (src dst : Nat) (hs : 
       simp at this
     · intro h; exact absurd ⟨h.1, h.2.1⟩ hl
 
+/-- **the `private_links_` table built by `do_seal`**: the counters end as `dims.size() + (loopback?1:0) + (limiter?1:0)`
+(although they grow while the first leaf is filled), and for every leaf `i` the position `node_pos(i)` holds its loopback,
+`node_pos_with_loopback(i)` its limiter, `node_pos_with_loopback_limiter(i) + j` the two halves of the link it declares
+towards its neighbour along dimension `j` (`Torus.neighbour` = the `neighbor_rank_id` formula) — no entry of another leaf
+shadows them (`try_emplace` keeps the first writer; blocks of different leaves are disjoint) -/
+theorem torus_private_links_table (t : Torus) (hwf : t.WF) (i : Nat) (hi : i < t.tot) :
+    t.seal.1 = { numLinks := t.dims.length + (if t.lb then 1 else 0) + (if t.lim then 1 else 0), hasLb := t.lb, hasLim := t.lim } ∧
+    (t.lb = true → Entries.at t.seal.2 (t.seal.1.nodePos i) = some (TLink.loopback i, TLink.loopback i)) ∧
+    (t.lim = true → Entries.at t.seal.2 (t.seal.1.nodePosLb i) = some (TLink.limiter i, TLink.limiter i)) ∧
+    (∀ j, j < t.dims.length → Entries.at t.seal.2 (t.seal.1.nodePosLbLim i + j)
+        = (t.neighbour i j).map (fun nb => (TLink.cable i nb true, TLink.cable i nb false))) := by
+  rw [seal_eq t (prod_pos _ hwf)]
+  exact ⟨rfl, sealed_table t i hi⟩
+
+/-- **every cable of the route is a declared link between consecutive nodes**: for each hop of the route (whose cables are
+`hops.map hopCable` by `torus_links_chain`), going right `next` is the neighbour that `cur` declared a link to in the hop's
+dimension, going left `cur` is the neighbour that `next` declared a link to -/
+theorem torus_links_declared (t : Torus) (hwf : t.WF) (src dst : Nat) (hs : src < t.tot) (hd : dst < t.tot) :
+    ∃ hops, t.hops src dst = some hops ∧ ∀ h ∈ hops, h.dim < t.dims.length ∧
+      (if h.up then t.neighbour h.cur h.dim = some h.next else t.neighbour h.next h.dim = some h.cur) := by
+  obtain ⟨_, _, _, h4, h5⟩ := torus_tri_facts t hwf src dst
+  have hh := torus_hops_spec t hwf src dst hs hd
+  refine ⟨_, hh, ?_⟩
+  intro h hm
+  apply hop_declared t dst (t.tri src dst) h4 h5 h
+  unfold Torus.hops at hh
+  exact hopsLoop_mem_scan dst _ _ _ _ hh h hm
+
 /-- non-vacuity: 4x4 torus with loopback and limiter callbacks, 5 -> 15 (ties in both dimensions: 4 UP cables, each
 preceded by the limiter of the node it leaves, then the limiter of 15) -/
 example : ({ dims := [4, 4], lb := true, lim := true } : Torus).route 5 15
@@ -227,6 +255,15 @@ example : ({ dims := [3, 2], lb := true, lim := true } : Torus).WF ∧
 example : linkWalk 5 [.limiter 5, .cable 5 3 true, .limiter 3, .cable 0 3 false, .limiter 0] = some 0 := by decide
 /-- a link that does not leave the current node is refused by `linkWalk` -/
 example : linkWalk 2 [.cable 0 2 true] = none := by decide
+/-- the table of the [3,2] torus with both callbacks: 4 positions per node; node 2 owns 8..11 -/
+example : (({ dims := [3, 2], lb := true, lim := true } : Torus).seal.1.numLinks = 4) ∧
+    Entries.at ({ dims := [3, 2], lb := true, lim := true } : Torus).seal.2 8 = some (.loopback 2, .loopback 2) ∧
+    Entries.at ({ dims := [3, 2], lb := true, lim := true } : Torus).seal.2 9 = some (.limiter 2, .limiter 2) ∧
+    Entries.at ({ dims := [3, 2], lb := true, lim := true } : Torus).seal.2 10 = some (.cable 2 0 true, .cable 2 0 false) ∧
+    Entries.at ({ dims := [3, 2], lb := true, lim := true } : Torus).seal.2 11 = some (.cable 2 5 true, .cable 2 5 false) := by
+  decide
+example : ({ dims := [3, 2], lb := true, lim := true } : Torus).neighbour 2 0 = some 0 ∧
+    ({ dims := [3, 2], lb := true, lim := true } : Torus).neighbour 0 1 = some 3 := by decide
 /-- a one-node torus with a dimension of size 1 -/
 example : ({ dims := [1], lb := true, lim := true } : Torus).route 0 0 = some [.loopback 0] := by decide
 
